@@ -24,6 +24,7 @@ type c03Req struct {
 	bodyKind    string // "body", "app", "raw", "stream", "sw", "none"
 	decl, act   int    // stream sizes
 	hdrs        [][2]string
+	framing     [][2]string // framing fields the handler sets by hand (the server manages them: they must not reach the wire as extra fields)
 	cookies     [][2]string
 	skip        bool
 }
@@ -49,6 +50,9 @@ func (q c03Req) wire(i int) []byte {
 		v.Set("sw", strconv.Itoa(q.act))
 	}
 	for _, h := range q.hdrs {
+		v.Add("hdr", h[0]+":"+h[1])
+	}
+	for _, h := range q.framing {
 		v.Add("hdr", h[0]+":"+h[1])
 	}
 	for _, c := range q.cookies {
@@ -104,6 +108,13 @@ func decodeC03(a [][]byte) []c03Req {
 				q.cookies = append(q.cookies, [2]string{k, v})
 			}
 		}
+		if len(f) > 11 {
+			for _, h := range strings.Split(f[11], "\x1e") {
+				if k, v, ok := strings.Cut(h, "="); ok {
+					q.framing = append(q.framing, [2]string{k, v})
+				}
+			}
+		}
 		out = append(out, q)
 	}
 	return out
@@ -112,7 +123,7 @@ func decodeC03(a [][]byte) []c03Req {
 func init() {
 	Register(&Prop{
 		ID: "C03", NoShrink: true,
-		Rule: "pipelines of 1..4 requests (GET/HEAD/POST x HTTP/1.0 keep-alive/1.1) whose handlers build the response by generated programs: every status 200..999 (each once with a body and a following request; 204/304 weighted), status message, added headers (repeated names), cookies, " +
+		Rule: "pipelines of 1..4 requests (GET/HEAD/POST x HTTP/1.0 keep-alive/1.1) whose handlers build the response by generated programs: every status 200..999 (each once with a body and a following request; 204/304 weighted), status message, added headers (repeated names), framing fields set by hand in several letter cases (header normalising on and off), cookies, " +
 			"body set/append/raw, SetBodyStream with declared size exact / short / long (by more than a buffer) / unknown, SetBodyStreamWriter, SkipBody; the wire is parsed with net/http.ReadResponse (the independent parser) knowing the request methods; " +
 			"non-trivial = some response carries a body or a stream; distinct = distinct input",
 		Parallel: true,
@@ -223,7 +234,7 @@ func init() {
 			if tier == "thorough" {
 				n = 80000
 			}
-			cfgs := []string{"", "", "rm=1"}
+			cfgs := []string{"", "", "rm=1", "dn=1", "dn=1,rm=1"}
 			statuses := []int{0, 0, 200, 201, 204, 304, 404, 500, 599, 299, 700, 999}
 			// every status 200..999 once, with a body, followed by a second request (a response that is framed wrongly
 			// swallows or desynchronises the next one)
@@ -275,6 +286,15 @@ func init() {
 					q[8], q[9] = strings.Join(hs, "\x1e"), strings.Join(cs, "\x1e")
 					if r.Chance(8) && q[0] == "HEAD" {
 						q[10] = "1" // SkipBody is documented for HEAD responses only
+					}
+					if r.Chance(12) && (q[5] == "none" || q[5] == "body" || q[5] == "app" || q[5] == "raw") {
+						// the handler also sets framing fields by hand, in some letter case
+						name := r.Pick([]string{"Content-Length", "content-length", "Content-length", "CONTENT-LENGTH", "Transfer-Encoding", "transfer-encoding", "Transfer-encoding"})
+						val := "chunked"
+						if strings.EqualFold(name, "content-length") {
+							val = r.Pick([]string{"5", "0", "33", "1000"})
+						}
+						q = append(q, name+"="+val)
 					}
 					args = append(args, B(strings.Join(q, "\x1f")))
 				}
